@@ -240,7 +240,7 @@ def expr_checks(c: dict, e, p, rep: Report) -> list:
         tl, te = wire.expr(fl[1]), wire.expr(fe[1])
         sb = Batch()
         idx = []
-        for q in [p._coordinates] + [g.point(vs) for _ in range(4)]:
+        for q in [wire.coords(p)] + [g.point(vs) for _ in range(4)]:
             e0, q0 = gen.safe_numbers(e, q)
             qt = wire.point(q0)
             idx.append((sb.ask(f"F0 eval {c['e']} {qt}"), sb.ask(f"F0 eval {tl} {qt}"), sb.ask(f"F0 eval {te} {qt}"), qt))
